@@ -121,7 +121,18 @@ pub enum Case {
         #[serde(default)]
         mag_exp: f64,
     },
-    Romberg { n: usize, coef: Vec<f64>, coef_im: Vec<f64>, l: f64, len: f64, complex: bool },
+    Romberg {
+        n: usize,
+        coef: Vec<f64>,
+        coef_im: Vec<f64>,
+        l: f64,
+        len: f64,
+        complex: bool,
+        /// the polynomial is multiplied by (x-a)(x-b)(x-(a+b)/2): it vanishes on the three coarsest nodes, so the
+        /// first two rows of the table are exactly zero (n >= 3 only; the degree stays <= 2n-1)
+        #[serde(default)]
+        vanish: bool,
+    },
     SimpsonBatch { jobs: Vec<Job> },
     /// routine 0..=7 (integrate, simpson, fixed, gaussian, laguerre, hermite, chebyshev, chebyshev_second);
     /// kind 0 reversed interval, 1 empty interval, 2 negative tolerance
@@ -546,12 +557,34 @@ fn run_weighted(case: &Case, mut o: Obs) -> Outcome {
 }
 
 fn run_romberg(case: &Case, mut o: Obs) -> Outcome {
-    let Case::Romberg { n, coef, coef_im, l, len, complex } = case else { unreachable!() };
+    let Case::Romberg { n, coef, coef_im, l, len, complex, vanish } = case else { unreachable!() };
     o.label("romberg");
     let n = (*n).clamp(1, 10);
     let deg = 2 * n - 1;
-    let cr: Vec<f64> = coef.iter().take(deg + 1).cloned().collect();
-    let ci: Vec<f64> = if *complex { coef_im.iter().take(deg + 1).cloned().collect() } else { vec![0.0] };
+    let vanish = *vanish && n >= 3;
+    // vanishing class: q(x) (x-a)(x-b)(x-m) with deg q = deg - 3
+    let times_cubic = |q: Vec<f64>| -> Vec<f64> {
+        let (a, b, m) = (*l, *l + *len, *l + 0.5 * *len);
+        let cubic = [-a * b * m, a * b + a * m + b * m, -(a + b + m), 1.0];
+        let mut out = vec![0.0; q.len() + 3];
+        for (i, qi) in q.iter().enumerate() {
+            for (j, cj) in cubic.iter().enumerate() {
+                out[i + j] += qi * cj;
+            }
+        }
+        out
+    };
+    let take = if vanish { deg + 1 - 3 } else { deg + 1 };
+    let mut cr: Vec<f64> = coef.iter().take(take).cloned().collect();
+    let mut ci: Vec<f64> = if *complex { coef_im.iter().take(take).cloned().collect() } else { vec![0.0] };
+    let (qr, qi) = (cr.clone(), ci.clone());
+    if vanish {
+        o.label("romberg-vanishing-on-coarse-nodes");
+        cr = times_cubic(cr);
+        if *complex {
+            ci = times_cubic(ci);
+        }
+    }
     let f = Integrand { poly: cr, ea: 0.0, a: 0.0, sb: 0.0, b: 0.0, phi: 0.0, complex: *complex, poly_im: ci, cz: (0.0, 0.0), cb: 0.0 };
     let (l, r) = (*l, *l + *len);
     let exact = f.exact(l, r);
@@ -561,7 +594,17 @@ fn run_romberg(case: &Case, mut o: Obs) -> Outcome {
     if *complex {
         o.label("complex");
     }
-    let res = if *complex { guard(|| bi::integrate_fixed::<C64, _>(l, r, |x| f.eval(x), n)) } else { guard(|| bi::integrate_fixed::<f64, _>(l, r, |x| f.eval(x).re, n).map(|v| c(v, 0.0))) };
+    // the vanishing class is evaluated in factored form, so that the zeros at a, b and the midpoint are exact
+    let m = l + 0.5 * *len;
+    let ev = |x: f64| -> C64 {
+        if vanish {
+            let w = (x - l) * (x - r) * (x - m);
+            c(horner(&qr, x) * w, if *complex { horner(&qi, x) * w } else { 0.0 })
+        } else {
+            f.eval(x)
+        }
+    };
+    let res = if *complex { guard(|| bi::integrate_fixed::<C64, _>(l, r, |x| ev(x), n)) } else { guard(|| bi::integrate_fixed::<f64, _>(l, r, |x| ev(x).re, n).map(|v| c(v, 0.0))) };
     judge(o, res, exact, bound, "integrate_fixed (Romberg)")
 }
 
@@ -670,8 +713,8 @@ fn strategy(t: Tier) -> BoxedStrategy<Case> {
     let uvec = || (0usize..=30).prop_flat_map(|d| proptest::collection::vec(gen::fl(-1.0, 1.0), d + 1));
     let weighted = (0u8..4, uvec(), uvec(), prop_oneof![1 => Just(0.0), 2 => gen::fl(-2.0, 2.0)], (gen::fl(-1.0, 1.0), prop_oneof![2 => Just(0.0), 1 => gen::fl(-3.0, 0.0), 1 => gen::fl(0.0, 3.0)]), gen::fl(0.0, 1.0), prop_oneof![3 => Just(false), 1 => Just(true)])
         .prop_map(|(family, u, u_im, cc, (b, mag_exp), tol_pos, complex)| Case::Weighted { family, u, u_im, cc, b, tol_pos, complex, mag_exp });
-    let romberg = (1usize..=10, proptest::collection::vec(gen::fl(-1.0, 1.0), 20), proptest::collection::vec(gen::fl(-1.0, 1.0), 20), gen::fl(0.05, 4.0), gen::fl(0.0, 1.0), any::<bool>())
-        .prop_map(|(n, coef, coef_im, len, pos, complex)| Case::Romberg { n, coef, coef_im, l: -5.0 + (10.0 - len) * pos, len, complex });
+    let romberg = (1usize..=10, proptest::collection::vec(gen::fl(-1.0, 1.0), 20), proptest::collection::vec(gen::fl(-1.0, 1.0), 20), gen::fl(0.05, 4.0), gen::fl(0.0, 1.0), (any::<bool>(), prop_oneof![3 => Just(false), 1 => Just(true)]))
+        .prop_map(|(n, coef, coef_im, len, pos, (complex, vanish))| Case::Romberg { n, coef, coef_im, l: -5.0 + (10.0 - len) * pos, len, complex, vanish });
     let nb = t.pick(20, 40);
     let batch = proptest::collection::vec(job(), nb).prop_map(|jobs| Case::SimpsonBatch { jobs });
     let invalid = (0u8..8, 0u8..3, gen::fl(-5.0, 4.0), gen::fl(0.05, 1.0), gen::logu(-8.0, -3.0)).prop_map(|(routine, kind, l, len, tol)| Case::Invalid { routine, kind, l, len, tol });
@@ -702,7 +745,7 @@ pub fn run(opts: &Opts) -> i32 {
         ("complex", 0.1),
     ];
     spec.max_discard_frac = 0.2;
-    spec.rule = "generated: integrands P_d(x)+A e^{ax}+B sin(bx+phi) (d<=6, |a|<=1.5, |b|<=2; complex variant + i Q(x) + C e^{i b x}; coefficients in [-1,1], amplitudes in [-2,2], all optionally times a common magnitude 10^[-3,1]) on intervals of length 0.05..4 anywhere in [-5,5], tolerance log-uniform from max(1e-11, 1e4 eps (b-a) sum|terms|) to 1e-3 for tanh-sinh / Gauss-Legendre / adaptive Simpson; weighted rules on sum u_k x^k/sqrt(mu0 m_2k) + C cos(bx) (degree <= 12 Hermite, 19 Laguerre, 30 Chebyshev; |b|<=1, 0.5 for Laguerre) against exact moments and closed forms, amplitudes optionally times 10^[-3,3] (integrals far from unit size under an absolute tolerance); Romberg n=1..10 on polynomials of degree <= 2n-1; batches of 20/40 Simpson integrals for the work bound; invalid class (reversed/empty interval, negative tolerance) for all eight routines. A case is admitted only if the harness's simulation of the documented stopping rule on independently computed nodes decides every step with a factor-1.5 margin and is itself within tol/2 of the closed-form integral; non-admitted cases are counted as discards (< 20%). Oracle: Ok required; |v-I| <= 2 tol + 64 eps (b-a) sum|terms| (tanh-sinh below 1e-8: 4 sqrt(tol); Simpson: tol on polynomials of degree <= 5 (no accuracy claim on the smooth family), evaluation count <= 8x reference + 32 per case and <= 2x per batch; Romberg: 2048 eps (b-a) sum|c_k||x|^k). Non-trivial = non-polynomial, degree >= 4, complex or interval not containing 0; weighted: non-polynomial or >= 5 coefficients or complex; batches; invalid. Distinct = distinct case JSON.".into();
+    spec.rule = "generated: integrands P_d(x)+A e^{ax}+B sin(bx+phi) (d<=6, |a|<=1.5, |b|<=2; complex variant + i Q(x) + C e^{i b x}; coefficients in [-1,1], amplitudes in [-2,2], all optionally times a common magnitude 10^[-3,1]) on intervals of length 0.05..4 anywhere in [-5,5], tolerance log-uniform from max(1e-11, 1e4 eps (b-a) sum|terms|) to 1e-3 for tanh-sinh / Gauss-Legendre / adaptive Simpson; weighted rules on sum u_k x^k/sqrt(mu0 m_2k) + C cos(bx) (degree <= 12 Hermite, 19 Laguerre, 30 Chebyshev; |b|<=1, 0.5 for Laguerre) against exact moments and closed forms, amplitudes optionally times 10^[-3,3] (integrals far from unit size under an absolute tolerance); Romberg n=1..10 on polynomials of degree <= 2n-1 (a quarter of them multiples of (x-a)(x-b)(x-(a+b)/2): zero on the three coarsest nodes); batches of 20/40 Simpson integrals for the work bound; invalid class (reversed/empty interval, negative tolerance) for all eight routines. A case is admitted only if the harness's simulation of the documented stopping rule on independently computed nodes decides every step with a factor-1.5 margin and is itself within tol/2 of the closed-form integral; non-admitted cases are counted as discards (< 20%). Oracle: Ok required; |v-I| <= 2 tol + 64 eps (b-a) sum|terms| (tanh-sinh below 1e-8: 4 sqrt(tol); Simpson: tol on polynomials of degree <= 5 (no accuracy claim on the smooth family), evaluation count <= 8x reference + 32 per case and <= 2x per batch; Romberg: 2048 eps (b-a) sum|c_k||x|^k). Non-trivial = non-polynomial, degree >= 4, complex or interval not containing 0; weighted: non-polynomial or >= 5 coefficients or complex; batches; invalid. Distinct = distinct case JSON.".into();
     spec.assumptions = vec!["closed-form integrals evaluated by Taylor shift / expm1 / product formulas (error << floor)".into(), "independent Gauss rules by Golub-Welsch (refs::quad), validated against the tables by C10".into()];
     spec.max_shrink_iters = 1500;
     run_spec(spec, opts)
